@@ -18,11 +18,13 @@ func init() {
 			"every one of the 26 DML statements of both backends has exactly the guard, written columns, conflict clause, ordering and limit of spec/sql.spec, with every placeholder bound to the command field the spec names (R1/R2)",
 			"dispatch: every StoreKind has an arm; transactions run in submission order, commands in list order, results[i][j] ↔ transactions[i].Commands[j]; the first failing command aborts the batch (M-DISPATCH)",
 			"every result's row count / records come from the command's own statement (provenance)",
+			"nothing a command read or produced is kept in memory that outlives the transaction, so every command is decided on the current database state (store-stateless)",
 			"one SQL transaction per Execute, success returned only after Commit succeeded, rollback on every error path; store.Process maps one error to every SQE and results[i] to SQE i",
 			"all SQL text is constant, every statement of a batch runs on the batch's *sql.Tx, only the store packages use database/sql, no database error is dropped (R3)",
 		},
 		[]string{"isolation/visibility to other connections (engine semantics)", "behaviour on every reachable database state (the guards are checked, not executed)"}).
 		rule("R1R2-sql-spec", ruleSQLSpec(allKinds)).
+		rule("store-stateless", ruleStoreStateless).
 		rule("R12-store-result-union", ruleStoreResultUnion).
 		rule("M-DISPATCH", ruleDispatch).
 		rule("result-provenance", ruleResults(allKinds)).
@@ -112,12 +114,14 @@ func init() {
 		[]string{
 			"mechanism only: every guarded write of every request coroutine has its row count examined, and on the 0-row path the coroutine retries or answers without data from the earlier read (R6)",
 			"coroutine code is confined to the single-threaded kernel: no go statement, channel operation, package-level state or sync primitive; the only clock is c.Time() (R14/R8)",
+			"the store backends keep nothing a command read or produced (any value of a type declared in this module) in a member of the worker / store or a package-level variable: a command is answered from the database, not from what an earlier transaction left in memory (store-stateless)",
 			"each command's guard re-validates what the decision read (R1/R2 on all statements) and each command literal is built from request/record/clock as specified (R9)",
 			"the objects shown in responses are the stored record patched with exactly what this request wrote (value, key, state and time of the written command — not of the request), so a response never shows a state that no sequential execution produces (R6 objects)",
 		},
 		[]string{"linearizability of histories (no history is explored)", "batch orders, fault sequences, kernel configurations", "correctness of the decisions themselves (C03, C04, C07, C09)"}).
 		rule("R6-cas", ruleCAS()).
 		rule("R14-coroutine-confinement", ruleCoroutineConfinement).
+		rule("store-stateless", ruleStoreStateless).
 		rule("R1R2-sql-spec", ruleSQLSpec(allKinds)).
 		rule("R9-command-provenance", ruleCmdProvenance(allCmdTypes...)).
 		rule("R6-response-shapes", ruleRespProvenance(allRespTypes...)).
@@ -286,6 +290,8 @@ func init() {
 		rule("R13-keyed-entries-agree", ruleKeyedEntriesAgree).
 		rule("R11-exhaustive", ruleExhaustive(nil)).
 		rule("R13-grpc-flags", ruleGrpcFlags).
+		// seed C15-8: "equivalent HTTP and gRPC requests are translated into the same kernel request" — an id rewritten by one front end only (trim / clean / case-fold) breaks it
+		rule("R15-no-normalisers", ruleNoNormalisers).
 		rule("R13-http-code", ruleHttpCode).
 		rule("R13-front-end-siblings", ruleFrontEndSiblings).
 		rule("R12-unwrap-nil", ruleUnwrapNil).
@@ -469,13 +475,14 @@ func init() {
 			"TagSource decides exactly: tag absent ⇒ no match; valid JSON decoding strictly into a receiver with a type ⇒ physical; other JSON ⇒ no match; anything else ⇒ logical string (R7 by path enumeration); first matching source wins; coerce accepts a physical receiver or a string",
 			"sender: logical name ⇒ configured target, else by URL scheme (http/https ⇒ http transport with that URL, poll://group/id ⇒ poll transport), physical as given; unresolvable receiver or missing plugin ⇒ error completion; plugin chosen by receiver type; message = (type, receiver data, body)",
 			"body keys type/task/href{claim,complete,heartbeat} or type/promise from this submission; hrefs formatted from exactly the task id and counter; the task created for a routed promise carries the router's receiver (R9/objects)",
-			"both decoders reject null instead of dereferencing nil (R12); every decode of receiver data, routing tags, request bodies and stored columns targets storage that is fresh for that message (zero-valued local of the invocation or a target handed in by the caller), so nothing of the previous message's address or headers is merged into this one (decode-fresh); the http receiver built from a routing-tag URL carries that URL verbatim (the String() of url.Parse's own result)",
+			"both decoders reject null instead of dereferencing nil (R12); every decode of receiver data, routing tags, request bodies and stored columns targets storage that is fresh for that message (zero-valued local of the invocation or a target handed in by the caller), so nothing of the previous message's address or headers is merged into this one (decode-fresh); bytes handed to a plugin do not alias a buffer that outlives the message (encode-fresh); where the worker is built every configured target is entered under its name unconditionally and a built-in entry only fills an absent name (sender-targets); the http receiver built from a routing-tag URL carries that URL verbatim (the String() of url.Parse's own result)",
 		},
 		[]string{"the plugins' network behaviour", "url.Parse's treatment of odd URLs"}).
 		rule("R7-decision-tables", ruleTables(tblTagSource, tblSchemeToRecv)).
 		rule("sender-scheme-url", ruleSchemeURLVerbatim).
 		rule("router-first-match", ruleRouterFirstMatch).
 		rule("sender-resolution", ruleSenderResolution).
+		rule("sender-targets", ruleSenderTargets).
 		rule("sender-poll-address", rulePollAddress).
 		rule("R9-command-provenance", ruleCmdProvenance("CreateTaskCommand", "CreatePromiseAndTaskCommand")).
 		rule("R6-object-provenance", ruleObjProvenance("SenderSubmission", "Task", "Promise")).
@@ -485,6 +492,7 @@ func init() {
 		rule("R7-http-plugin-outcome", ruleHttpPluginOutcome).
 		rule("R7-sender-process", ruleSenderTables).
 		rule("R16-decode-fresh", ruleDecodeFresh).
+		rule("R16-encode-fresh", ruleEncodeFresh).
 		rule("R16-swapped-arguments", ruleSwappedArguments)
 }
 
@@ -495,11 +503,12 @@ func init() {
 			"name agreement (R16): in both front ends and in the record decoders every field of a request / API object / protobuf message is fed from the identically named station (or a listed alias)",
 			"command literals copy request fields unaltered (R9); responses and dispatched messages carry the stored record unaltered (objects)",
 			"no normalising or escaping function lies on an id or payload path (allowed sites are listed with their reason); html/template is not used; the wildcard-route id loses exactly its leading slash; derived ids embed the client id raw; time-valued fields are int64 at every station (R15/R16)",
-			"a client datum is replaced by an empty map / slice only under a nil / empty test of that same datum (zero-defaults); every decode targets storage fresh for the message (decode-fresh); no package-level map is handed out by a decoder / converter (no-shared-maps); no column carries a case-folding / trimming collation",
+			"a client datum is replaced by an empty map / slice only under a nil / empty test of that same datum (zero-defaults); every decode targets storage fresh for the message (decode-fresh); bytes handed on do not alias a buffer that outlives the message (encode-fresh); no package-level map is handed out by a decoder / converter (no-shared-maps); no column carries a case-folding / trimming collation",
 		},
 		[]string{"byte-level behaviour of drivers and codecs (database/sql, encoding/json base64, protobuf)", "LIKE/JSON-path semantics of search (finding F15)"}).
 		rule("R16-name-agreement", ruleNameAgreement).
 		rule("R16-decode-fresh", ruleDecodeFresh).
+		rule("R16-encode-fresh", ruleEncodeFresh).
 		rule("R16-no-shared-maps", ruleNoSharedMaps).
 		rule("R3-errors-examined", ruleErrorsExamined(pkgHttp, pkgGrpc, pkgSubApi, pkgTApi, pkgPromise, pkgSchedule, pkgTask, pkgUtil)).
 		rule("R16-zero-defaults", ruleDefaultsOnlyForZero).
